@@ -5,6 +5,7 @@ import (
 	"encoding/json"
 	"fmt"
 	"math/rand"
+	"strings"
 	"time"
 
 	"github.com/sharedcode/sop"
@@ -94,7 +95,7 @@ func round(i int, seed int64, extra []string) any {
 			return res
 		}
 		if r.Err != "" {
-			res.Class, res.Problem = "commit-error", fmt.Sprintf("%s commit failed: %s", r.ID, r.Err)
+			res.Class, res.Problem = "commit-error/"+errClass(r.Err), fmt.Sprintf("%s commit failed: %s", r.ID, r.Err)
 			return res
 		}
 	}
@@ -180,3 +181,24 @@ func Run(r *report.Run) int {
 const rule = "rounds of 2-3 writer goroutines (public path) adding interleaved disjoint new keys into the same leaves of a seeded 9-item store (slot length 2/4/8, in-node/separate/globally-cached values), some rounds with disjoint updates; 0-3 ms PRNG delays at L2 cache calls and before Commit; GOMAXPROCS cycled 16,4,2,1; oracle: every Commit returns nil and the quiescent dump equals seed ∪ all changes with count == scan; fingerprint = hash of the cross-transaction order of commit call/return events; non-trivial = at least two commits overlapped"
 
 var assumptions = []string{"seeded store (README precondition)", "maxTime 2 min, no injected failures (delays only)", "standalone in-memory L2, single process"}
+
+// errClass names the kind of commit error (part of the violation signature).
+func errClass(e string) string {
+	switch {
+	case strings.Contains(e, "failed to find item with key"):
+		return "refetch-item-not-found"
+	case strings.Contains(e, "detected a newer version"):
+		return "refetch-newer-version"
+	case strings.Contains(e, "failed to merge"):
+		return "refetch-merge-failed"
+	case strings.Contains(e, "exceeded retry limit"):
+		return "retry-limit"
+	case strings.Contains(e, "detected conflict"):
+		return "item-lock-conflict"
+	case strings.Contains(e, "timed out") || strings.Contains(e, "deadline"):
+		return "timeout"
+	case strings.Contains(e, "locks lost"):
+		return "node-locks-lost"
+	}
+	return "other"
+}
